@@ -74,12 +74,15 @@ class Unrolled:
         of a polling round (ts.spin_norm: their spin transitions taken back to the state they return to) have finished
         that round?  (A worker between its receive time-out and its flag test is not blocked.)"""
         spin = getattr(self.ts, "spin", set())
-        gs = [g(st) for k, (_l, _a, g, _u) in enumerate(self.ts.trans) if not (progress_only and k in spin)]
         norm = getattr(self.ts, "spin_norm", None)
         if progress_only and norm is not None:
+            # evaluated on the normalised state only: normalisation moves pollers back to the receive, where every
+            # progress step they could take from the polling state is still available
             st2 = dict(st)
             st2.update(norm(st))
-            gs += [g(st2) for k, (_l, _a, g, _u) in enumerate(self.ts.trans) if k not in spin]
+            gs = [g(st2) for k, (_l, _a, g, _u) in enumerate(self.ts.trans) if k not in spin]
+        else:
+            gs = [g(st) for k, (_l, _a, g, _u) in enumerate(self.ts.trans) if not (progress_only and k in spin)]
         return z3.Or(*gs) if gs else z3.BoolVal(False)
 
     def check(self, *extra):
